@@ -25,5 +25,5 @@ def run(tier):
                    bounds=dict(values=g.describe(), calls=n, configurations="full matrix" if full is True else ([list(H.CONFIGS[0])] if full == "single" else [list(c) for c in H.CONFIGS]),
                                k="all integers >= 0 (symbolic)"),
                    rule="one path = (configuration, call history shapes, k class)", describe=H.describe)
-    jobs = [J("c01_quick", 300, 5), J("c01_nestedx", 200, 6)] if tier == "quick" else [J("c01_nestedx", 300, 6), J("c01_nested2", 600, 6), J("c01_nested", 2400, 7), J("c01_medium", 2400, 5), J("c01_matrix", 2400, 6), J("c01_three", 1800, 5), J("c01_thorough", 2400, 5)]
+    jobs = [J("c01_quick", 300, 5), J("c01_nestedx", 200, 6)] if tier == "quick" else [J("c01_quick", 200, 5), J("c01_nestedx", 200, 6), J("c01_nested2", 200, 6), J("c01_nested", 300, 7), J("c01_medium", 300, 5), J("c01_matrix", 300, 6), J("c01_three", 300, 5), J("c01_thorough", 300, 5)]
     return run_check(PID, tier, jobs, H.FUNCTIONS, ASSUMPTIONS, pre=H2.validate_environment)
